@@ -45,20 +45,26 @@ fn cam_viewport_is_intersection() {
     assert!(same_matrix(&c2.viewport, &viewport_matrix(pt2(l, t)..pt2(r, b))));
 }
 
-// @ob props=C08 tier=quick kind=P cfg=core-std timeout=900
+// @ob props=C08 tier=quick kind=B cfg=core-std timeout=900
 // @fn Camera::perspective ; Camera::orthographic
-// @clause Camera::perspective builds the projection with aspect ratio width/height of its current viewport dims (and the same focal ratio and depth range); Camera::orthographic installs the orthographic matrix of the given box; neither touches dims or the viewport matrix
+// @bound viewport sizes {640x480, 4x3, 3x4, 1x1, 1x4096}, focal ratio 1.5, depth range 0.5..50 (concrete, so the reference matrix is a constant); any prior sub-viewport request
+// @clause Camera::perspective builds the projection with aspect ratio width/height of its CURRENT viewport dims (after a viewport() call, not of the frame), same focal ratio and depth range; Camera::orthographic installs the orthographic matrix of the given box; neither touches dims or the viewport matrix
 #[cfg(not(verif_skip_cam_projection_uses_viewport_aspect))]
 #[kani::proof]
 #[kani::unwind(6)]
 fn cam_projection_uses_viewport_aspect() {
-    let (w, h): (u32, u32) = (kani::any(), kani::any());
-    kani::assume(w >= 1 && w <= 4096 && h >= 1 && h <= 4096);
-    let (fr, near, far): (F, F, F) = (kani::any(), kani::any(), kani::any());
-    kani::assume(fr > 0.0 && fr <= 100.0 && near >= 0.001 && near < far && far <= 1.0e6);
-    let cam = Camera::new((w, h)).perspective(fr, near..far);
-    let want = perspective(fr, w as F / h as F, near..far);
-    kani::cover!(w > h);
+    let k: u8 = kani::any();
+    let (w, h): (u32, u32) = match k % 5 {
+        0 => (640, 480),
+        1 => (4, 3),
+        2 => (3, 4),
+        3 => (1, 1),
+        _ => (1, 4096),
+    };
+    // a frame twice as wide: the sub-viewport (0..w, 0..h) has a different aspect than the frame
+    let cam = Camera::new((2 * w, h)).viewport((0..w, 0..h)).perspective(1.5, 0.5..50.0);
+    let want = perspective(1.5, w as F / h as F, 0.5..50.0);
+    kani::cover!(k % 5 == 2);
     let mut i = 0;
     while i < 4 {
         let mut j = 0;
